@@ -12,7 +12,7 @@ import yaml
 from lxml import etree as ET
 
 from ..parser_utils import ParserException
-from ..xmlparser import XML_HEADER
+from ..xmlparser import XML_HEADER, to_csv
 
 from ...format import Document, Section, Property
 from ...info import FORMAT_VERSION
@@ -280,7 +280,7 @@ class VersionConverter(object):
         """
         for prop in root.iter("property"):
             main_val = ET.Element("value")
-            multiple_values = False
+            value_texts = []
             parent = prop.getparent()
 
             # If a Property has no name attribute, remove it from its parent and
@@ -304,21 +304,16 @@ class VersionConverter(object):
                 # Move supported elements from Value to parent Property.
                 self._handle_value(value, prop_id)
 
-                if value.text:
-                    if main_val.text:
-                        main_val.text += "," + value.text.strip()
-                        multiple_values = True
-                    else:
-                        main_val.text = value.text.strip()
+                if value.text and value.text.strip():
+                    value_texts.append(value.text.strip())
 
                 prop.remove(value)
 
-            # Append value element only if it contains an actual value
-            if main_val.text:
-                # Multiple values require brackets
-                if multiple_values:
-                    main_val.text = "[" + main_val.text + "]"
-
+            # Append value element only if it contains an actual value.
+            # The values are written the way the XML writer writes them, so that
+            # commas, quotes and brackets inside a value are read back unchanged.
+            if value_texts:
+                main_val.text = to_csv(value_texts)
                 prop.append(main_val)
 
             # Reverse map "dependency_value", exclude unsupported Property attributes.
@@ -422,12 +417,24 @@ class VersionConverter(object):
         :param elem_map: lxml path to occurrence maps of named Sections or Properties.
         :param name: lxml element containing the name text of a Section or Property.
         """
-        named_path = "%s:%s" % (tree.getpath(name.getparent().getparent()), name.text)
+        entity = name.getparent()
+        named_path = "%s:%s" % (tree.getpath(entity.getparent()), name.text)
         if named_path not in elem_map:
             elem_map[named_path] = 1
-        else:
+            return
+
+        # The new name must not clash with the name of any other sibling either.
+        taken = set()
+        for sibling in entity.getparent().iterchildren(entity.tag):
+            sibling_name = sibling.find("name")
+            if sibling is not entity and sibling_name is not None:
+                taken.add(sibling_name.text)
+
+        new_name = name.text
+        while new_name in taken:
             elem_map[named_path] += 1
-            name.text += "-" + str(elem_map[named_path])
+            new_name = "%s-%s" % (name.text, elem_map[named_path])
+        name.text = new_name
 
     def _check_add_ids(self, tree):
         """
@@ -478,12 +485,11 @@ class VersionConverter(object):
         print(msg)
 
     def __str__(self):
-        tree = self.convert()
-        return ET.tounicode(tree, pretty_print=True) if tree else ""
+        # convert already returns the converted document as a string.
+        return self.convert()
 
     def __unicode__(self):
-        tree = self.convert()
-        return ET.tounicode(tree, pretty_print=True) if tree else ""
+        return self.convert()
 
     def convert(self, backend="XML"):
         """
